@@ -52,6 +52,12 @@
 (*   KeepAliveEosStale    fixed.  The second exchange of a kept-alive      *)
 (*                        HTTP/1.1 client connection towards an HTTP/2     *)
 (*                        backend was refused (stale end-of-stream marks). *)
+(*   LoopBudgetKill       OPEN.  Mux::ready gives itself MAX_LOOP_ITERATIONS   *)
+(*                        passes per wake-up and one pass handles one      *)
+(*                        HTTP/2 frame per endpoint: a burst of a few      *)
+(*                        thousand small frames that is already in the     *)
+(*                        kernel exhausts the budget and the session is    *)
+(*                        closed with its exchanges in flight.             *)
 (*   FinalizeDropsWritable hypothetical: finalize_write withdraws WRITABLE *)
 (*                        although buffered output remains (sanity of the  *)
 (*                        model: TLC must find the lost wake-up).          *)
@@ -311,6 +317,15 @@ Dev_SpinKill ==
   /\ endRcvd' = [p \in Pipes |-> IF endRcvd[p] = "none" /\ sent[p] > 0 THEN "abort" ELSE endRcvd[p]]
   /\ UNCHANGED <<sent, rd, wr, rcvd, endSent, endRd, endWr, inK, outK, event, interest, kfull, edgeR, edgeW, parked, win, credit, ok>>
 
+\* DEVIATION (open): a burst that fills the kernel queue of an HTTP/2 connection is more than one wake-up's
+\* iteration budget can take: the session is closed with its exchanges in flight
+Dev_BudgetKill ==
+  /\ Dev("LoopBudgetKill") /\ ~killed
+  /\ \E e \in Endpoints : Proto(e) = "h2" /\ Len(inK[e]) = K /\ "R" \in event[e]
+  /\ killed' = TRUE
+  /\ endRcvd' = [p \in Pipes |-> IF endRcvd[p] = "none" /\ sent[p] > 0 THEN "abort" ELSE endRcvd[p]]
+  /\ UNCHANGED <<sent, rd, wr, rcvd, endSent, endRd, endWr, inK, outK, event, interest, kfull, edgeR, edgeW, parked, win, credit, ok>>
+
 \* wrappers (TLC coverage names)
 Any_Peer_Write == \E p \in Pipes : \E k \in Ws : Peer_Write(p, k)
 Any_Peer_Close == \E p \in Pipes : \E kind \in {"clean", "abort"} : Peer_Close(p, kind)
@@ -321,12 +336,12 @@ Any_Mux_Readable == \E e \in Endpoints : Mux_Readable(e)
 Any_Mux_Writable == \E e \in Endpoints : Mux_Writable(e)
 
 SozuStep == Any_Mux_Readable \/ Any_Mux_Writable
-Next == Any_Peer_Write \/ Any_Peer_Close \/ Any_Peer_Read \/ Any_Peer_Grant \/ Any_Epoll_Edge \/ SozuStep \/ Dev_SpinKill
+Next == Any_Peer_Write \/ Any_Peer_Close \/ Any_Peer_Read \/ Any_Peer_Grant \/ Any_Epoll_Edge \/ SozuStep \/ Dev_SpinKill \/ Dev_BudgetKill
 
 Spec == Init /\ [][Next]_vars
 \* sozu, the kernel and the receivers are fair; senders are free (the liveness premise is "the sender ended")
 FairSpec == Spec /\ WF_vars(SozuStep) /\ WF_vars(Any_Epoll_Edge) /\ WF_vars(Any_Peer_Read) /\ WF_vars(Any_Peer_Grant)
-                 /\ WF_vars(Dev_SpinKill)
+                 /\ WF_vars(Dev_SpinKill) /\ WF_vars(Dev_BudgetKill)
 
 ---------------------------------------------------------------------------
 (* Properties                                                              *)
